@@ -71,6 +71,9 @@ def prune(interp, cond):
             ic[1] = [B(f) for f in GM.wf_instances(wfv[0], wfv[1], ints[:6], bonds[:10])]
             ic[0] = (len(gi), len(gb))
         s.add(*ic[1])
+    ri = _ref_instances(interp)
+    if ri:
+        s.add(*ri)
     s.push()
     s.add(cond)
     r1 = s.check()
@@ -84,7 +87,7 @@ def prune(interp, cond):
         # after a loop was summarised by its invariant the facts about the heap are quantified (frames, invariants):
         # second attempt with all assumptions and E-matching (an `unsat` is sound whatever the heuristics do)
         qs = z3.Solver()
-        qs.set("timeout", int(interp.state.get("prune_q_timeout", 1500)))
+        qs.set("timeout", int(interp.state.get("prune_q_timeout", 800)))
         qs.set("auto_config", False)
         qs.set("mbqi", False)
         qs.add(*[B(a) for a in interp.assumptions], *interp.pc, *(ic[1] if wfv is not None else []))
@@ -98,6 +101,22 @@ def prune(interp, cond):
         if qs.check() == z3.unsat:
             return True
     return None
+
+
+def _ref_instances(interp):
+    """ground instances of the assumed loop-invariant clauses that quantify over heap references (bound variable `lr`)
+    at the references the loop contracts named as hints (instances of assumed universals: sound)"""
+    refs = interp.state.get("ground_refs", [])
+    if not refs:
+        return []
+    cache = interp.state.setdefault("ref_inst_cache", [(-1, -1), []])
+    if cache[0] != (len(refs), len(interp.assumptions)):
+        out = []
+        for a in interp.assumptions:
+            if z3.is_quantifier(a) and a.is_forall() and a.num_vars() == 1 and a.var_name(0) == "lr":
+                out += [z3.substitute_vars(a.body(), r) for r in refs]
+        cache[0], cache[1] = (len(refs), len(interp.assumptions)), out
+    return cache[1]
 
 
 def unchanged(h0: Heap, h1: Heap, g0: Obj, g1: Obj, tag="u"):
@@ -615,9 +634,29 @@ def verify_invert(obs, world, pid="C06", timeout=10000):
             r_, s_, dt_ = solve(pre + [rt != GM.d_invert(hd["t"])], timeout)
             obs.append(Ob(f"{pid}/{base}/result-is-the-mirror-image#path{i}", "proof", DISCHARGED if r_ == z3.unsat else (FAILED if r_ == z3.sat else UNDECIDED), "z3", dt_,
                           detail="" if r_ == z3.unsat else "invert() does not return class, atoms and flipped parity sign of self",
-                          witness=_model_dict(s_, {"self": hd["t"], "result": rt}) if r_ == z3.sat else None))
+                          witness=_model_dict(s_, {"self": hd["t"], "result": rt}) if r_ == z3.sat else None,
+                          replay_code=_invert_replay(s_, hd["t"], cname) if r_ == z3.sat else None))
             obs.append(Ob(f"{pid}/{base}/self-not-modified#path{i}", "proof", DISCHARGED if hd.get("self_same") else FAILED, "ast",
                           detail="" if hd.get("self_same") else "invert() assigned to a field of self"))
+
+
+def _invert_replay(solver, t, cname):
+    """the solver's counter-model as a concrete descriptor, replayed on the real invert()"""
+    try:
+        m = solver.model()
+
+        def oi(term):
+            v = m.eval(term, model_completion=True)
+            return None if z3.is_true(m.eval(H.OIntS.is_ONone(term), model_completion=True)) else m.eval(H.OIntS.ov(v), model_completion=True).as_long()
+
+        atoms = tuple(oi(GM.d_slot(t, j)) for j in range(H.DESCR_LEN[cname]))
+        par = oi(H.DescrS.par(t))
+    except Exception:  # noqa
+        return None
+    return (f"from stereomolgraph.stereodescriptors import {cname}\nd = {cname}({atoms!r}, {par!r})\nr = d.invert()\n"
+            f"exp = -d.parity if d.parity in (1, -1) else d.parity\nprint(d, '->', r, 'expected parity', exp)\n"
+            f"ok = type(r) is type(d) and tuple(r.atoms) == tuple(d.atoms) and r.parity == exp and tuple(d.atoms) == {atoms!r} and d.parity == {par!r}\n"
+            "print('property holds on this case' if ok else 'VIOLATION reproduced')\nsys.exit(0 if ok else 1)\n")
 
 
 def _model_dict(solver, terms):
@@ -855,6 +894,8 @@ def for_hook(interp, s, fr, iterable):
             interp.assume(f)
         interp.assume(z3.And(z3.Select(C, x), z3.Not(z3.Select(done, x))))
         H.note_ground(interp, x)
+        if hasattr(lc, "hints"):
+            interp.state.setdefault("ground_refs", []).extend(lc.hints(ctx, x))
         if src is not None:  # items of a dict: (key, value)
             kk = H.BondVal(x) if esort == BondS else x
             elem = (kk, src.wrap(interp, ctx.h_entry.d_get(src.t, src.ref, x)))
